@@ -119,88 +119,7 @@ func runC16(p *core.Prog, r *core.Report, tier string) {
 	r.Count("slice-to-array conversions", nC)
 
 	// ---- (d) decoded pointer collections ----
-	nD := 0
-	seenD := map[string]bool{}
-	for _, f := range fns {
-		rel := core.RelPkg(f.Pkg.Pkg.Path())
-		if !strings.HasPrefix(rel, "services/blockrelay") && rel != mnRel {
-			continue
-		}
-		core.EachInstr(f, func(in ssa.Instruction) {
-			var elem ssa.Value
-			var coll ssa.Value
-			switch x := in.(type) {
-			case *ssa.Extract:
-				// map range value / comma-ok lookup value
-				if rg, which, ok := core.MapRange(x); ok && which == 2 {
-					elem, coll = x, rg.X
-				}
-				if lk, ok := x.Tuple.(*ssa.Lookup); ok && x.Index == 0 {
-					elem, coll = x, lk.X
-				}
-			case *ssa.Lookup:
-				if !x.CommaOk {
-					elem, coll = x, x.X
-				}
-			case *ssa.UnOp:
-				if c, _, ok := core.RangeElem(x); ok {
-					elem, coll = x, c
-				} else if ia, ok := x.X.(*ssa.IndexAddr); ok && x.Op.String() == "*" {
-					elem, coll = x, ia.X
-				}
-			}
-			if elem == nil {
-				return
-			}
-			pt, ok := elem.Type().Underlying().(*types.Pointer)
-			if !ok {
-				return
-			}
-			if _, isStruct := pt.Elem().Underlying().(*types.Struct); !isStruct {
-				return
-			}
-			fid, ok := core.FieldOfValue(coll)
-			if !ok || !decodedField(p, fid) {
-				return
-			}
-			// dereferencing uses of the element (directly, or of a value it is merged into)
-			if elem.Referrers() == nil {
-				return
-			}
-			type useOf struct {
-				v   ssa.Value
-				use ssa.Instruction
-			}
-			var uses []useOf
-			for _, use := range *elem.Referrers() {
-				uses = append(uses, useOf{elem, use})
-				if phi, ok := use.(*ssa.Phi); ok && phi.Referrers() != nil {
-					for _, u2 := range *phi.Referrers() {
-						uses = append(uses, useOf{phi, u2})
-					}
-				}
-			}
-			for _, uo := range uses {
-				elem, use := uo.v, uo.use
-				if !derefs(elem, use) {
-					continue
-				}
-				construct := fmt.Sprintf("%s|element-of|%s", core.FnKey(f), fid.String())
-				if seenD[construct] {
-					continue
-				}
-				seenD[construct] = true
-				nD++
-				if collectionValidated(p, ds, fid) {
-					r.Hold("C16.d", construct, p.Pos(use.Pos()), "nil entries of "+fid.String()+" are rejected when the document is unmarshalled")
-					continue
-				}
-				w := core.Unguarded(ds, f, nil, func(y ssa.Instruction) bool { return y == use }, core.NonNilGuard(ds, elem))
-				r.Check(w == nil, "C16.d", construct, p.Pos(use.Pos()), "the decoded entry is tested non-nil before use",
-					"an entry of "+fid.String()+" (filled from JSON, where null is a legal element) is dereferenced without a nil test: a null entry crashes the process", p.WitnessText(w)...)
-			}
-		})
-	}
+	nD := checkDecodedCollections(p, r, ds, "C16.d", fns, func(rel string) bool { return strings.HasPrefix(rel, "services/blockrelay") || rel == mnRel })
 	r.Count("decoded-collection element dereferences", nD)
 	r.Floor("C16.d decoded-collection element dereferences", nD, 6)
 
@@ -624,4 +543,132 @@ func collectionValidated(p *core.Prog, ds *core.Describer, id core.FieldID) bool
 		}
 	})
 	return ok
+}
+
+// checkDecodedCollections: elements of pointer collections filled by a JSON decoder are tested non-nil before
+// they are dereferenced (or the owner's unmarshaler rejects null entries). Returns the number of sites decided.
+func checkDecodedCollections(p *core.Prog, r *core.Report, ds *core.Describer, rule string, fns []*ssa.Function, inScope func(rel string) bool) int {
+	nD := 0
+	seenD := map[string]bool{}
+	for _, f := range fns {
+		rel := core.RelPkg(f.Pkg.Pkg.Path())
+		if !inScope(rel) {
+			continue
+		}
+		core.EachInstr(f, func(in ssa.Instruction) {
+			var elem ssa.Value
+			var coll ssa.Value
+			switch x := in.(type) {
+			case *ssa.Extract:
+				// map range value / comma-ok lookup value
+				if rg, which, ok := core.MapRange(x); ok && which == 2 {
+					elem, coll = x, rg.X
+				}
+				if lk, ok := x.Tuple.(*ssa.Lookup); ok && x.Index == 0 {
+					elem, coll = x, lk.X
+				}
+			case *ssa.Lookup:
+				if !x.CommaOk {
+					elem, coll = x, x.X
+				}
+			case *ssa.UnOp:
+				if c, _, ok := core.RangeElem(x); ok {
+					elem, coll = x, c
+				} else if ia, ok := x.X.(*ssa.IndexAddr); ok && x.Op.String() == "*" {
+					elem, coll = x, ia.X
+				}
+			}
+			if elem == nil {
+				return
+			}
+			pt, ok := elem.Type().Underlying().(*types.Pointer)
+			if !ok {
+				return
+			}
+			if _, isStruct := pt.Elem().Underlying().(*types.Struct); !isStruct {
+				return
+			}
+			fid, ok := core.FieldOfValue(coll)
+			if !ok || !decodedField(p, fid) {
+				return
+			}
+			// dereferencing uses of the element (directly, or of a value it is merged into)
+			if elem.Referrers() == nil {
+				return
+			}
+			type useOf struct {
+				v   ssa.Value
+				use ssa.Instruction
+			}
+			var uses []useOf
+			seenPhi := map[ssa.Value]bool{elem: true}
+			work := []ssa.Value{elem}
+			for len(work) > 0 && len(seenPhi) < 8 {
+				v := work[0]
+				work = work[1:]
+				if v.Referrers() == nil {
+					continue
+				}
+				for _, use := range *v.Referrers() {
+					uses = append(uses, useOf{v, use})
+					if phi, ok := use.(*ssa.Phi); ok && !seenPhi[phi] {
+						seenPhi[phi] = true
+						work = append(work, phi)
+					}
+				}
+			}
+			for _, uo := range uses {
+				elem, use := uo.v, uo.use
+				if !derefs(elem, use) {
+					continue
+				}
+				construct := fmt.Sprintf("%s|element-of|%s", core.FnKey(f), fid.String())
+				if seenD[construct] {
+					continue
+				}
+				seenD[construct] = true
+				nD++
+				if collectionValidated(p, ds, fid) {
+					r.Hold(rule, construct, p.Pos(use.Pos()), "nil entries of "+fid.String()+" are rejected when the document is unmarshalled")
+					continue
+				}
+				var w []ssa.Instruction
+				if !nonNilOnLeaf(ds, f, core.Leaf{V: elem, At: use}, 0) {
+					w = core.Unguarded(ds, f, nil, func(y ssa.Instruction) bool { return y == use }, core.NonNilGuard(ds, elem))
+					if w == nil {
+						w = []ssa.Instruction{use}
+					}
+				}
+				r.Check(w == nil, rule, construct, p.Pos(use.Pos()), "the decoded entry is tested non-nil before use",
+					"an entry of "+fid.String()+" (filled from JSON, where null is a legal element) is dereferenced without a nil test: a null entry crashes the process", p.WitnessText(w)...)
+			}
+		})
+	}
+	return nD
+}
+
+// nonNilOnLeaf: the pointer value of the leaf is certainly not nil where it is used (or where it flows along its
+// edge): it is an allocation, a non-nil test dominates it, or it is a merge all of whose incoming values are
+// non-nil on their own edges (`if p == nil { p = &T{} }`).
+func nonNilOnLeaf(ds *core.Describer, fn *ssa.Function, lf core.Leaf, depth int) bool {
+	switch lf.V.(type) {
+	case *ssa.Alloc, *ssa.MakeMap, *ssa.MakeSlice, *ssa.FieldAddr, *ssa.IndexAddr, *ssa.MakeInterface:
+		return true
+	}
+	if core.UnguardedLeaf(ds, fn, nil, lf, core.NonNilGuard(ds, lf.V)) == nil {
+		return true
+	}
+	if phi, ok := lf.V.(*ssa.Phi); ok && depth < 4 {
+		for i, e := range phi.Edges {
+			pb := phi.Block().Preds[i]
+			if len(pb.Instrs) == 0 {
+				return false
+			}
+			if !nonNilOnLeaf(ds, fn, core.Leaf{V: e, At: pb.Instrs[len(pb.Instrs)-1], Pred: pb, To: phi.Block()}, depth+1) {
+				return false
+			}
+		}
+		return true
+	}
+	return false
 }
